@@ -4,8 +4,13 @@ from native import indic
 
 def replay(pl):
     name = (pl.get('task') or pl['obligation'].split('.')[0])
+    long_ = False
+    if name.startswith('native.'):
+        name, long_ = name[len('native.'):], True
     try:
         d = indic.prefix_check(name)
+        if not d and (long_ or pl['obligation'].endswith('.native-bounded')):
+            d = indic.long_prefix_check(name)
     except Exception as ex:
         return {'confirmed': False, 'error': f'{type(ex).__name__}: {ex}'}
     return {'confirmed': bool(d), 'detail': d or f'{name}: prefix of the series equals the series of the prefix on the probed inputs'}
